@@ -92,7 +92,7 @@ Init ==
   /\ gh = [succ |-> [h \in H |-> 0], seen |-> [h \in H |-> 0], deldone |-> {}, early |-> FALSE,
            touched |-> FALSE, resumed |-> [h \in H |-> 0], badinv |-> "none", foreignlost |-> FALSE,
            reverted |-> FALSE, leftunmatched |-> FALSE, staleview |-> FALSE,
-           ownrv |-> 0, owntime |-> 0, blindwrite |-> FALSE]
+           ownrv |-> 0, owntime |-> 0, blindwrite |-> FALSE, cseen |-> [h \in H |-> 0], f8 |-> FALSE]
 
 Snap(type, o) == [type |-> type, rv |-> o.rv, ess |-> o.ess, lh |-> o.lh, prog |-> o.prog, fins |-> o.fins,
                   deleting |-> o.deleting, match |-> o.match, dummy |-> (o.dummy # 0)]
@@ -308,6 +308,7 @@ InvokeWith(h, o) ==
         /\ bud' = [bud EXCEPT !.fails = IF o.k = "ok" THEN @ ELSE @ + 1]
         /\ gh' = [gh EXCEPT !.succ[h] = IF isok /\ o.k = "ok" THEN @ + 1 ELSE @,
                             !.seen[h] = IF isok THEN cyc.s.ess ELSE @,
+                            !.cseen[h] = IF isok THEN cyc.s.ess ELSE @,
                             !.deldone = IF cyc.reason = "delete" /\ Finished(q) THEN @ \cup {h} ELSE @,
                             !.resumed[h] = IF "resume" \in HC[h].reasons /\ HC[h].reasons = {"resume"} /\ Finished(q)
                                            THEN @ + 1 ELSE @]
@@ -383,6 +384,9 @@ SrvMerge ==
              /\ cyc' = [cyc EXCEPT !.fresh = obj'.rv, !.rv = obj'.rv, !.ffins = obj'.fins]
              /\ pc' = "r1done"
              /\ gh' = [gh EXCEPT !.succ = IF r.closing /\ changed THEN [h \in H |-> 0] ELSE @,
+                                 \* F8: the cycle is closed on the essence of THIS view; a handler of the cycle may have seen an older one
+                                 !.f8 = IF r.closing /\ changed THEN \E h \in H : gh.cseen[h] \notin {0, cyc.s.ess} ELSE @,
+                                 !.cseen = IF r.closing /\ changed THEN [h \in H |-> 0] ELSE @,
                                  !.blindwrite = @ \/ (~cyc.s.match /\ (o2.prog # obj.prog \/ o2.lh # obj.lh))]
   /\ UNCHANGED <<bl, up, stopping, mem, wk, now, bud>>
   /\ UNCHANGED conf
@@ -514,6 +518,9 @@ Family_F20 == gh.reverted         \* an edit that restores the last-handled esse
 Family_F21 == gh.staleview        \* handlers ran on a view older than the own last write after the consistency timeout
 Family_F22 == gh.leftunmatched    \* the object stopped matching the handlers' filters: the framework turns blind to it
 \* an object marked for deletion that the framework's finalizer does not hold is "gone" for the framework: what a cycle left unfinished stays
+\* a change that lands while an earlier handler's progress is being stored is absorbed into the last-handled state at the
+\* close of the cycle: that handler has completed against an older state and is never invoked for the newer one
+Family_F8 == gh.f8
 Family_F31 == obj.exists /\ Released /\ \E h \in H : obj.prog[h] # NoRec
 TerminalConverged == Terminal => (Converged \/ Family_F20 \/ Family_F21 \/ Family_F22 \/ Family_F31)
 Witness_F20 == ~(Terminal /\ ~Converged /\ Family_F20 /\ ~Family_F21 /\ ~Family_F22)
